@@ -1369,7 +1369,7 @@ func ruleClientErrorMapping(c *chk.Ctx) {
 		return
 	}
 	okE, okR := false, false
-	ir.Instrs(settle, func(ins ssa.Instruction) {
+	c.P.ExtInstrs(settle, func(ins ssa.Instruction) {
 		st, ok := ins.(*ssa.Store)
 		if !ok {
 			return
@@ -1383,7 +1383,7 @@ func ruleClientErrorMapping(c *chk.Ctx) {
 			if !ok || ir.FieldVar(fa) != f {
 				return false
 			}
-			e, ok := fa.X.(*ssa.Extract)
+			e, ok := c.P.Canon(fa.X).(*ssa.Extract)
 			return ok && e.Tuple == ssa.Value(recv) && e.Index == 0
 		}
 		if chk.IsField(st.Addr, c.M.RErr) && fromRaw(st.Val, c.M.JE) {
@@ -1400,12 +1400,7 @@ func ruleClientErrorMapping(c *chk.Ctx) {
 		if f.Parent() != nil || !ir.Exported(f) {
 			continue
 		}
-		callsSettle := false
-		ir.Calls(f, func(ci ssa.CallInstruction) {
-			if ci.Common().StaticCallee() == settle {
-				callsSettle = true
-			}
-		})
+		callsSettle := reachesCallee(c, f, settle, 2)
 		if !callsSettle || f.Signature.Results().Len() != 2 || f.Signature.Results().At(1).Type().String() != "error" {
 			continue
 		}
@@ -1415,7 +1410,7 @@ func ruleClientErrorMapping(c *chk.Ctx) {
 		n++
 		okFilter := false
 		for _, r := range ir.Returns(f) {
-			if call, ok := ir.ReturnResult(r, 1).(*ssa.Call); ok && call.Call.StaticCallee() != nil && call.Call.StaticCallee().Name() == "filterError" {
+			if through, some := errorsThroughFilter(c, ir.ReturnResult(r, 1)); through && some {
 				okFilter = true
 			}
 		}
@@ -1492,4 +1487,44 @@ func ruleJSONWhitespace(c *chk.Ctx) {
 	if n == 0 {
 		c.Undecided("TABLE.space", nil, "first-byte scan", 0, "no first-significant-byte function found")
 	}
+}
+
+
+// reachesCallee: f calls g, directly or through at most depth unexported repository functions.
+func reachesCallee(c *chk.Ctx, f, g *ssa.Function, depth int) bool {
+	found := false
+	ir.Calls(f, func(ci ssa.CallInstruction) {
+		h := ci.Common().StaticCallee()
+		if h == nil || found {
+			return
+		}
+		if h == g {
+			found = true
+			return
+		}
+		if depth > 0 && c.P.InRepo[h] && !ir.Exported(h) && h != f && reachesCallee(c, h, g, depth-1) {
+			found = true
+		}
+	})
+	return found
+}
+
+// errorsThroughFilter traces an error result back: through reports whether every
+// non-nil source is a call of filterError, some whether there is such a call.
+func errorsThroughFilter(c *chk.Ctx, ev ssa.Value) (through, some bool) {
+	isFilter := func(v ssa.Value) bool {
+		call, ok := v.(*ssa.Call)
+		return ok && call.Call.StaticCallee() != nil && call.Call.StaticCallee().Name() == "filterError"
+	}
+	through = true
+	for _, src := range c.P.SourcesStop(ev, isFilter) {
+		switch {
+		case isFilter(src):
+			some = true
+		case ir.IsNilConst(src):
+		default:
+			through = false
+		}
+	}
+	return
 }
